@@ -34,11 +34,12 @@ class _Worker:
 
 class Scheduler:
     def __init__(self, seed, policy="random", switch_p=0.1, pct_changes=2, decisions=None,
-                 trace_suffixes=("flowpaths/utils/safetypathcovers.py",), opcode=False, max_steps=2_000_000):
+                 trace_suffixes=("flowpaths/utils/safetypathcovers.py",), opcode=False, max_steps=2_000_000, pct_horizon=600):
         self.rng = random.Random(seed)
         self.policy = policy
         self.switch_p = switch_p
         self.pct_changes = pct_changes
+        self.pct_horizon = max(20, int(pct_horizon))
         self.forced = {int(k): v for k, v in (decisions or {}).items()} if decisions is not None else None
         self.trace_suffixes = tuple(trace_suffixes)
         self.opcode = opcode
@@ -112,7 +113,8 @@ class Scheduler:
                 pr = list(range(n))
                 self.rng.shuffle(pr)
                 self._prio = {w.tid: pr[i] + self.pct_changes + 1 for i, w in enumerate(self.workers)}
-                self._change_at = sorted(self.rng.randrange(1, 3000) for _ in range(self.pct_changes))
+                # priority change points inside the expected length of the run (PCT needs them to land in it)
+                self._change_at = sorted(self.step + self.rng.randrange(1, self.pct_horizon) for _ in range(self.pct_changes))
             while self._change_at and self.step >= self._change_at[0]:
                 self._change_at.pop(0)
                 if self.current is not None:
